@@ -494,9 +494,10 @@ pub fn decode_and_sweep(entry: &str, strict: bool, bytes: &[u8], ctx: &Ctx) -> R
     }
 }
 
-/// The mutated inputs of a plan for one corpus item.  Generic kinds hit the node at the plan's site (sites are spread evenly over the
-/// tree); kinds that need a node of a particular type hit every eligible node whose rank is congruent to the site, so that all
-/// eligible nodes are covered whatever the number of sites.
+/// The mutated inputs of a plan for one corpus item.  Kinds that need a node of a particular type hit every eligible node whose
+/// rank is congruent to the site; kinds that apply anywhere hit the representative nodes (first and last node of every distinct tag)
+/// whose rank is congruent to the site, plus the node at the site's evenly spaced position.  So every eligible node / every kind of
+/// field is covered whatever the number of sites; more sites add more positions.
 pub fn apply_plan(item: &Item, muts: &[(String, usize, usize)], sites: usize) -> Vec<Vec<u8>> {
     // sites = 0: the site numbers are ranks among the eligible nodes (random driver)
     let exact = sites == 0;
@@ -528,7 +529,12 @@ pub fn apply_plan(item: &Item, muts: &[(String, usize, usize)], sites: usize) ->
     } else if tlv::TYPED_KINDS.contains(&k0.as_str()) {
         tlv::eligible(&root, k0).into_iter().enumerate().filter(|(rank, _)| rank % sites == s0 % sites).map(|(_, n)| n).collect()
     } else {
-        vec![(root.count() - 1) * (s0 % sites) / (sites - 1)]
+        // the representative nodes (one per kind of field), partitioned over the sites, plus the evenly spaced node of this site
+        let mut v: Vec<usize> = tlv::representatives(&root).into_iter().enumerate().filter(|(rank, _)| rank % sites == s0 % sites).map(|(_, n)| n).collect();
+        v.push((root.count() - 1) * (s0 % sites) / (sites - 1));
+        v.sort();
+        v.dedup();
+        v
     };
     for n in firsts {
         let mut r = root.clone();
